@@ -36,7 +36,12 @@ func (d *DeterministicSampler) Start() error {
 	// Get the actual upper bound - the largest possible value divided by
 	// the sample rate. In the case where the sample rate is 1, this should
 	// sample every value.
-	d.upperBound = math.MaxUint32 / uint32(d.sampleRate)
+	// A rate of 1 or less (including an unset rate of 0) keeps everything; it
+	// must not reach the division below.
+	d.upperBound = math.MaxUint32
+	if d.sampleRate > 1 {
+		d.upperBound = math.MaxUint32 / uint32(d.sampleRate)
+	}
 
 	return nil
 }
